@@ -17,8 +17,8 @@ ASSUMPTIONS = [
 ]
 RULE = {
     "quick": "W1: all batches of length <=3 over 4 colliding substrates x 2 rules x cache {off, size 1, 2, 32768} x direction x id reuse <=2, second fit() on the same reactor with other rule objects; "
-    "W2: all cuts of batches of 4 entries (entry_n_jobs>1) and of 3 rules (parallel_rules); W1r: real engine on 12 batches; W4: batched vs one-shot clustering (6 pools x all orders x batch sizes); "
-    "W5: validators and balance check under every cut of 5 rows vs per-row calls; W6: real loky pool and real ProcessPoolExecutor vs serial; non-trivial = cache hit or batch cut occurred",
+    "W2: all cuts of batches of 4 entries (entry_n_jobs>1) and of 3 rules (parallel_rules); W1r: real engine on 12 batches; W3: SynCRN.build(parallel=True) through an in-process ordered executor vs serial for every subset of >=4 of 6 seeds x rule lists x repeats x frontier x max_workers; W4: batched vs one-shot clustering (6 pools x all orders x batch sizes); "
+    "W5: validators and balance check under every cut of 5 rows vs per-row calls, the same records checked on one column, another and the first again (serial and batched); W6: real loky pool and real ProcessPoolExecutor vs serial; non-trivial = cache hit or batch cut occurred",
     "thorough": "batches of length <=4, id reuse <=3, all cuts of 5 entries",
 }
 
